@@ -212,7 +212,9 @@ def enum_xpak(seed):
     cases, fails = 0, []
 
     def bad(model, detail):
-        if len(fails) < 4:
+        # a few examples per input class, so that listed findings never crowd out other failures
+        cls_ = bool(model.get("key_rewritten_on_reading"))
+        if sum(1 for f in fails if bool(f["model"].get("key_rewritten_on_reading")) == cls_) < (2 if cls_ else 4):
             fails.append({"model": model, "detail": detail})
     payloads = [b"", b"tarball-bytes" * 3]
     dicts = []
@@ -220,11 +222,15 @@ def enum_xpak(seed):
         for vl in (0, 1, 5, 40):
             dicts.append({f"KEY{i}" + "x" * i: (bytes([65 + i]) * (vl + i)) for i in range(nk)})
     dicts.append({"environment.bz2": b"\x00\xff" * 9, "CATEGORY": "dev-util\n", "PF": "é-1"})
-    for pre in payloads:
+    # the package may be reached through a symbolic link (the $PKGDIR/<category>/ -> All/ layout); keys differing only in case
+    dicts.append({"repo": "gentoo", "X": "1"})
+    link = os.path.join(tmpd, "a-link-with-quite-a-long-name-to-the-package.tbz2")
+    os.symlink(path, link)
+    for pre, via in [(p_, v_) for p_ in payloads + [b"T" * 500] for v_ in ("path", "symlink")]:
         for d1 in dicts:
             with open(path, "wb") as fh:
                 fh.write(pre)
-            src = path
+            src = path if via == "path" else link
             Xpak.write_xpak(src, d1)
             cases += 1
 
@@ -237,15 +243,15 @@ def enum_xpak(seed):
                     vb = v.encode("utf8") if isinstance(v, str) else v
                     gb = g.encode("utf8") if isinstance(g, str) else g
                     if gb != vb:
-                        bad({"prefix_len": len(pre), "keys": list(d)}, f"{what}: key {k!r} read back as {g!r}, written {v!r}")
+                        bad({"prefix_len": len(pre), "keys": list(d), "key_rewritten_on_reading": [k] if k.upper() in got and k not in got else []}, f"{what}: key {k!r} read back as {g!r}, written {v!r}")
                 if list(got) != list(want):
-                    bad({"prefix_len": len(pre), "keys": list(d)}, f"{what}: keys {list(got)} != written {list(want)}")
+                    bad({"prefix_len": len(pre), "keys": list(d), "key_rewritten_on_reading": [k for k in want if k not in got and k.upper() in got]}, f"{what}: keys {list(got)} != written {list(want)}")
                 raw = open(path, "rb").read()
                 if raw[:len(pre)] != pre:
-                    bad({"prefix_len": len(pre)}, f"{what}: bytes before the segment changed")
+                    bad({"prefix_len": len(pre), "via": via}, f"{what} (through the {via}): bytes before the segment changed")
                 expect_len = len(pre) + 32 + sum(12 + len(k.encode()) for k in d) + sum(len(v.encode("utf8") if isinstance(v, str) else v) for v in d.values())
                 if len(raw) != expect_len:
-                    bad({"prefix_len": len(pre), "keys": list(d)}, f"{what}: file is {len(raw)} bytes, segment should end at {expect_len} (old segment not entirely replaced)")
+                    bad({"prefix_len": len(pre), "keys": list(d), "via": via}, f"{what} (through the {via}): file is {len(raw)} bytes, segment should end at {expect_len} (old segment not entirely replaced)")
             try:
                 check(d1, "first write")
                 for d2 in dicts[:: 3] + [dict(list(d1.items())[:-1]), {k: v[:-1] if len(v) > 1 else v for k, v in d1.items()}]:
@@ -257,7 +263,7 @@ def enum_xpak(seed):
                 bad({"prefix_len": len(pre), "keys": list(d1)}, f"round trip raised {e!r}")
     import shutil
     shutil.rmtree(tmpd, ignore_errors=True)
-    return {"name": "C26.xpak.bounded_enumeration", "bound": f"{len(dicts)} dictionaries (0-4 keys, value sizes 0-44, str/bytes/environment keys) x 2 payload prefixes, each rewritten with 8 other dictionaries incl. 1-byte shrinks",
+    return {"name": "C26.xpak.bounded_enumeration", "bound": f"{len(dicts)} dictionaries (0-4 keys, value sizes 0-44, str/bytes/environment keys) x 3 payload prefixes x the package path itself / a symbolic link to it, each rewritten with 8 other dictionaries incl. 1-byte shrinks",
             "cases": cases, "failures": fails}
 
 
@@ -266,3 +272,4 @@ def tasks():
 
 
 REPLAY = {}
+WITNESSES = {"key_rewritten_on_reading": lambda m: bool(m.get("key_rewritten_on_reading"))}
